@@ -122,9 +122,16 @@ _CHAINS = {}
 def build_chain(case):
     """one MarkovChain object per case["obj"]: the calls of a group reuse it (cdfs are cached lazily in the object)"""
     key = case.get("obj")
+    if key is not None and case.get("sv") is not None:
+        key = key + ":sv"
     if key is not None and key in _CHAINS:
-        return _CHAINS[key]
+        mc = _CHAINS[key]
+        if case.get("sv") is not None:
+            mc.state_values = np.array(case["sv"], dtype=np.int64)     # re-assigned on the reused object (setter)
+        return mc
     mc = _build_chain(case)
+    if case.get("sv") is not None:
+        mc.state_values = np.array(case["sv"], dtype=np.int64)
     if key is not None:
         _CHAINS[key] = mc
     return mc
@@ -583,6 +590,23 @@ def make_cases(ctx, thorough):
                     c["stream"] = hx(gen_stream(rng, rt, inits, ts))
                     # a sparse chain with a negative init once segfaulted: such cases run only in the bounds-checked interpreter
                     c["bc_only"] = vname != "dense" and any(i < 0 for i in inits)
+                    if kind == "sim" and rng.random() < 0.5:
+                        # integer state_values (sometimes with a repeated value: get_index takes the first match)
+                        sv = [7 * i - 5 for i in range(n)]
+                        rng.shuffle(sv)
+                        if n >= 3 and rng.random() < 0.3:
+                            sv[-1] = sv[0]
+                        c["sv"] = sv
+                        c["init_idx"] = c["init"]
+                        if c["init"] is not None:
+                            first = lambda i: sv.index(sv[i])
+                            if isinstance(c["init"], int):
+                                c["init_idx"], c["init"] = first(c["init"]), sv[c["init"]]
+                            else:
+                                c["init_idx"], c["init"] = [first(i) for i in c["init"]], [sv[i] for i in c["init"]]
+                            # the stream was steered for the original indices; a repeated value restarts from its first index: fine, any stream is legal
+                        if rng.random() < 0.15:
+                            c["init"], c["init_form"], c["variant"] = 1000, "int", "malformed:sv_missing"
                 cases.append(c)
         # malformed stream: init out of range, bad ts / num_reps  (ValueError expected); every kind for a third of the matrices
         if rng.random() < 0.34 or mode in ("small", "tenths", "flip", "single"):
@@ -619,6 +643,11 @@ FLOAT_AXIOMS = ("FloatAxioms.Prim2SF_valid", "FloatAxioms.SF2Prim_Prim2SF", "Flo
                 "FloatAxioms.leb_spec", "FloatAxioms.add_spec", "FloatAxioms.mul_spec", "FloatAxioms.eqb_spec", "FloatAxioms.compare_spec",
                 "ClassicalDedekindReals.sig_forall_dec", "ClassicalDedekindReals.sig_not_dec", "Classical_Prop.classic",
                 "FunctionalExtensionality.functional_extensionality_dep")
+# further axioms of the LOADED library Coq.Floats.FloatAxioms (specifications of primitive operations that no C10/C20 theorem
+# uses; coqchk -o lists the axioms of every loaded library, Print Assumptions only those a theorem depends on)
+FLOAT_LIB_AXIOMS = tuple("FloatAxioms." + n for n in (
+    "of_uint63_spec", "div_spec", "sub_spec", "Leibniz.eqb_spec", "frshiftexp_spec", "next_down_spec", "compare_spec", "ldshiftexp_spec",
+    "opp_spec", "next_up_spec", "abs_spec", "sqrt_spec", "classify_spec", "eqb_spec", "normfr_mantissa_spec"))
 
 
 def run(ctx):
@@ -626,8 +655,9 @@ def run(ctx):
     rng = ctx.rng
     # PropsFloat.v: binary64 instances through Flocq; they rest on the standard library's specification of the primitive
     # float operations (FloatAxioms) and on the classical reals, each axiom named in the evidence
-    ctx.proofs(["C10/Props.v", "C10/PropsTie.v", "C10/PropsFloat.v"], extra_axioms=FLOAT_AXIOMS)
-    ctx.assumptions += ["axioms used only by *PropsFloat.v: " + ", ".join(FLOAT_AXIOMS)]
+    ctx.proofs(["C10/Props.v", "C10/PropsTie.v", "C10/PropsFloat.v"], extra_axioms=FLOAT_AXIOMS + FLOAT_LIB_AXIOMS)
+    ctx.assumptions += ["axioms used only by *PropsFloat.v: " + ", ".join(FLOAT_AXIOMS),
+                        "axioms of the loaded library FloatAxioms not used by any theorem (listed by coqchk -o): " + ", ".join(FLOAT_LIB_AXIOMS)]
     import scipy.sparse as sp
     from quantecon.markov.core import MarkovChain, mc_sample_path
     from quantecon import DiscreteRV
@@ -917,6 +947,7 @@ def run(ctx):
     coq = {"sim_idx": [], "sim": [], "mcsp": []}
     meta = {"sim_idx": [], "sim": [], "mcsp": []}
     args = {"sim_idx": [], "sim": [], "mcsp": []}
+    svcases, svmeta, svargs = [], [], []
     for ci, c in enumerate(cases):
         bc_only = bool(c.get("bc_only"))
         r_bc = bres[ci]
@@ -948,6 +979,23 @@ def run(ctx):
         if bc_only:
             inp["negative_init"] = True
         rows = stored_rows(c)
+        if c.get("sv") is not None:
+            # state_values: independent route = index paths from a fresh chain without state_values, same scripted stream
+            if res[0] == "ok":
+                ci_ = dict(c, sv=None, obj=None, kind="sim_idx", init=c["init_idx"])
+                ridx = run_case(ci_)
+                if ridx[0] != "ok" or [[c["sv"][i] for i in r] for r in ridx[2]] != res[2] or ridx[1] != res[1]:
+                    ctx.fail("state_values", "simulate with state_values is not state_values[index path]", dict(inp, state_values=c["sv"]), res[:3], ridx[:3])
+                else:
+                    oracle_paths(ctx, ci_, ridx, rows)
+            elif not c["variant"].startswith("malformed"):
+                ctx.fail("rejected", "valid call raised %s" % res[0], dict(inp, state_values=c["sv"]), res, None)
+            ctx.count("sim:state_values")
+            a = (chain_lit(c, csr_arrays(c) if (c["sparse"] or c["csr"]) else None), zlist(c["sv"]), zlit(c["ts"]), init_lit(c), optz(c["num_reps"]), zlist(c["ints"]), flist(st))
+            svargs.append(a)
+            svcases.append(tup(*(a + (res_lit(res),))))
+            svmeta.append(ci)
+            continue
         if res[0] == "ok" and c["variant"].startswith("malformed"):
             ctx.fail("accepted_invalid", "a call outside the documented domain (init outside [-n, n) / [0, n) for simulate, ts_length < 1, "
                      "negative num_reps) did not raise ValueError", inp, res[:3], "ValueError")
@@ -985,6 +1033,14 @@ def run(ctx):
                          {k: c[k] for k in ("P", "csr", "sparse", "ts", "init", "init_form", "num_reps", "ints", "stream")},
                          results[meta[kind][i]],
                          ctx.coq_eval(IMPORTS, "%s %s" % (fn, " ".join(args[kind][i])), preamble=PREAMBLE)[-600:])
+    bad = ctx.coq_check("simulate(state_values)", IMPORTS, "@chain float * list Z * Z * init_t * option Z * list Z * list float * res (bool * list (list Z))",
+                        "fun c => let '(ch, sv, ts, init, nr, drawn, stream, exp) := c in res_eqb pr_eqb (simulate_sv ch sv ts init nr drawn stream) exp",
+                        svcases, chunk=60, preamble=PREAMBLE)
+    for i in bad:
+        c = cases[svmeta[i]]
+        ctx.mismatch("C10.Model.simulate_sv (float instance) vs MarkovChain.simulate with state_values",
+                     {k: c[k] for k in ("P", "csr", "sparse", "sv", "ts", "init", "init_form", "num_reps", "ints", "stream")}, results[svmeta[i]],
+                     ctx.coq_eval(IMPORTS, "simulate_sv %s" % " ".join(svargs[i]), preamble=PREAMBLE)[-600:])
     bad = ctx.coq_check("mc_sample_path", IMPORTS, "@chain float * (Z + list float) * Z * list float * res (list Z)",
                         "fun c => let '(ch, init, ts, stream, exp) := c in res_eqb Zs_eqb (mc_sample_path ch init ts stream) exp",
                         coq["mcsp"], chunk=60, preamble=PREAMBLE)
